@@ -136,10 +136,22 @@ package parser
 //@   ensures err != nil ==> n == nil && !isEnd                                 @errors-carry-no-node
 
 // ---------- parser/html.go ----------
-// Only the attribute mapping is under contract.  htmlParser.Pull walks the pointer graph of golang.org/x/net/html
-// nodes; its safety rests on shape invariants of that library's trees (a document node has a child, a doctype has a
-// following sibling, Parent/FirstChild/NextSibling are consistent) that were not brought under contract.  It is
-// covered by the bounded stand-in /verif/bounded/html only.
+// htmlParser.Pull walks the pointer graph of golang.org/x/net/html nodes.  Its safety rests on two shape facts of
+// that library's trees (module htmlspec, A-HTML, assumed): a document node has a first child, a doctype node has a
+// next sibling, and neither of those is again a document/doctype node (the measure of the two recursive calls).
+// That the walk visits every node exactly once is covered by the bounded stand-in /verif/bounded/html only.
+
+//@ macro HINV(x) = x != nil && x.node != nil && wf(x.node) && 0 <= x.attrPos && wf(x.attrs)
+
+//@ func htmlParser.Pull(x) (n, isEnd, err)
+//@   property C17 C15
+//@   uses htmlspec strfn
+//@   requires $HINV(x)$
+//@   modifies x
+//@   decreases (if x.nodeEmitted || x.crawlToParent || x.emitSelfClosingTag || x.attrPos < len(x.attrs) then 3 else hrank(x.node.Type))
+//@   ensures $HINV(x)$                                                         @invariant-kept
+//@   ensures err == nil && !isEnd ==> n != nil                                 @a-node-unless-end-or-error
+//@   ensures err != nil ==> n == nil && !isEnd                                 @errors-carry-no-node
 
 //@ extern strings.SplitN(s, sep, n) (r)
 //@   uses strfn
